@@ -1,6 +1,7 @@
 package main
 
 import (
+	"runtime/pprof"
 	"encoding/json"
 	"flag"
 	"fmt"
@@ -25,6 +26,11 @@ func loadPinned(path string) map[string]string {
 }
 
 func main() {
+	if pf := os.Getenv("GCV_PROF"); pf != "" {
+		f, _ := os.Create(pf)
+		pprof.StartCPUProfile(f)
+		defer pprof.StopCPUProfile()
+	}
 	if len(os.Args) < 2 {
 		fmt.Fprintln(os.Stderr, "usage: gcv <verify|prop|gen-contracts|selftest> ...")
 		os.Exit(2)
